@@ -207,6 +207,11 @@ def e2e_case(item):
         lines, b0, b1 = build_file([pro], [], body, [], [epi])
         lines_opt = arg.replace("L", str(b0)).replace("M", str(b1)).replace(
             "K", str(b0 + 2)).replace("J", str(b0 + 1))
+    elif kind == "linesff":
+        # page-break (form feed) and blank-with-tab lines in front of the kernel: they are white
+        # space for the assembler and must not shift the numbering --lines refers to
+        lines, b0, b1 = build_file([pro, ["\f", " \t "]], [], body, [], [epi])
+        lines_opt = arg.replace("L", str(b0)).replace("M", str(b1))
     elif kind == "only":
         lines, b0, b1 = list(body), 1, len(body)
     elif kind == "noise":
@@ -217,7 +222,7 @@ def e2e_case(item):
             noise = [[c + " n%d" % k, ".Ln%d:" % k, ".p2align 4"][k % 3] for k in range(60)]
         else:
             noise = [{"comment": c + " noise", "label": ".Lnoise:", "directive": ".p2align 4",
-                      "blank": ""}[what]]
+                      "blank": "", "formfeed": "\f"}[what]]
         nb = body[:posn] + noise + body[posn:]
         lines, b0, b1 = build_file([pro], marker(isa, "start", "one"), nb,
                                    marker(isa, "end", "one"), [epi])
@@ -301,8 +306,9 @@ def run(ctx):
             for bi in range(3):
                 vs = [("marked", "one"), ("marked", "multi"), ("marked", "comment"),
                       ("lines", "L-M"), ("lines", "L:M"), ("lines", "L,J-M"), ("lines", "K-M,L-J"),
-                      ("lines", "L-K,K-M"), ("lines", "M,L-M"), ("only", None)]
-                for what in ("comment", "label", "directive", "blank"):
+                      ("lines", "L-K,K-M"), ("lines", "M,L-M"), ("linesff", "L-M"),
+                      ("only", None)]
+                for what in ("comment", "label", "directive", "blank", "formfeed"):
                     for posn in range(len(BODIES[isa][bi]) + 1):
                         vs.append(("noise", (what, posn)))
                 # enough noise lines to lift the kernel over the 50-line threshold of the
